@@ -113,6 +113,11 @@ class LayoutTest:
     are followed and must give the same cell"""
 
 
+class TableTest(LayoutTest):
+    """a test on the WHOLE table (`np.isfinite(values).all()`) seen from one cell: when this cell does not decide it, it depends on the other cells;
+    both outcomes are followed and must give the same value in this cell"""
+
+
 class Interp:
     def __init__(self, methods, depth=0):
         self.methods = methods          # name -> FuncInfo of Factor
@@ -231,6 +236,8 @@ class Interp:
                     return type(v)(neg(v.cell))
             if isinstance(e.op, (ast.Not, ast.Invert)) and isinstance(v, Mask):
                 return Mask(not v.truth)
+            if isinstance(e.op, (ast.Not, ast.Invert)) and isinstance(v, LayoutTest):
+                return v
             raise AnalysisError('cell semantics: unary `%s`' % U(e)[:60])
         if isinstance(e, ast.BinOp):
             return self.binop(e.op, self.expr(e.left, env), self.expr(e.right, env), e)
@@ -238,7 +245,13 @@ class Interp:
             vs = [self.expr(v, env) for v in e.values]
             vs = [LayoutTest() if isinstance(v, Other) and isinstance(v.what, str) and v.what.startswith('domain') else v for v in vs]
             if any(isinstance(v, LayoutTest) for v in vs) and all(isinstance(v, (LayoutTest, Mask)) for v in vs):
-                return LayoutTest()
+                # a decided operand can settle the whole test
+                ms = [v.truth for v in vs if isinstance(v, Mask)]
+                if isinstance(e.op, ast.And) and any(m is False for m in ms):
+                    return Mask(False)
+                if isinstance(e.op, ast.Or) and any(m is True for m in ms):
+                    return Mask(True)
+                return next(v for v in vs if isinstance(v, LayoutTest))
             if all(isinstance(v, Mask) for v in vs):
                 return Mask(all(v.truth for v in vs) if isinstance(e.op, ast.And) else any(v.truth for v in vs))
             raise AnalysisError('cell semantics: boolean `%s`' % U(e)[:60])
@@ -270,6 +283,8 @@ class Interp:
                 if is_fin(x) and is_fin(y):
                     if same(x, y):
                         return Mask(isinstance(op, ast.Eq))
+                    if set(x[1]) <= {1} and set(y[1]) <= {1}:
+                        return Mask(isinstance(op, ast.NotEq))          # two different python numbers
                     raise AnalysisError('cell semantics: comparison of two finite values `%s`' % U(e)[:60])
                 return Mask((rx == ry) == isinstance(op, ast.Eq))
             if rx != ry:
@@ -318,6 +333,16 @@ class Interp:
             return Fac(self.cell_of(args[1]))
         if last == 'isscalar' and len(args) == 1:
             return Mask(isinstance(args[0], Num))
+        if last in ('all', 'any') and isinstance(f, ast.Attribute) and not e.args:
+            m_ = self.expr(f.value, env)
+            if isinstance(m_, Mask):
+                if last == 'all':
+                    return Mask(False) if not m_.truth else TableTest()
+                return Mask(True) if m_.truth else TableTest()
+        if last in ('all', 'any') and len(args) == 1 and isinstance(args[0], Mask) and U(f) in ('np.all', 'np.any', 'numpy.all', 'numpy.any'):
+            if last == 'all':
+                return Mask(False) if not args[0].truth else TableTest()
+            return Mask(True) if args[0].truth else TableTest()
         if last == 'where' and len(args) == 3 and isinstance(args[0], Mask):
             v = args[1] if args[0].truth else args[2]
             return Arr(self.cell_of(v))
